@@ -25,10 +25,61 @@ def der_int(i):
 
 
 def tlv_(tag, content):
-    return bytes([tag]) + der_len(len(content)) + content
+    return (bytes([tag]) if isinstance(tag, int) else tag) + der_len(len(content)) + content
 
 
-def der(t, v):
+CLASS_BITS = {'UNIVERSAL': 0x00, 'APPLICATION': 0x40, '': 0x80, 'PRIVATE': 0xc0}
+
+
+def ident(cls, num, constructed):
+    """identifier octets (X.690 8.1.2): low form for numbers <= 30, high form (base 128, minimal) above"""
+    first = CLASS_BITS[cls] | (0x20 if constructed else 0)
+    if num <= 30:
+        return bytes([first | num])
+    out = [num & 0x7f]
+    num >>= 7
+    while num:
+        out.append(0x80 | (num & 0x7f))
+        num >>= 7
+    return bytes([first | 0x1f]) + bytes(reversed(out))
+
+
+def split_ident(enc):
+    """(class bits, number, constructed, rest) of an encoding"""
+    first = enc[0]
+    if first & 0x1f != 0x1f:
+        return first & 0xc0, first & 0x1f, bool(first & 0x20), enc[1:]
+    num, i = 0, 1
+    while True:
+        num = (num << 7) | (enc[i] & 0x7f)
+        i += 1
+        if not enc[i - 1] & 0x80:
+            break
+    return first & 0xc0, num, bool(first & 0x20), enc[i:]
+
+
+def member_der(m, v, module_mode):
+    """encoding of one SEQUENCE/SET component, applying its tag (X.690 8.14): EXPLICIT wraps, IMPLICIT replaces the
+    identifier octets keeping the primitive/constructed bit"""
+    enc = der(m['t'], v, module_mode)
+    tag = m.get('tag')
+    if not tag:
+        return enc
+    cls, num, mode = tag
+    mode = mode or module_mode
+    if mode == 'EXPLICIT':
+        return tlv_(ident(cls, num, True), enc)
+    _, _, constructed, rest = split_ident(enc)
+    return ident(cls, num, constructed) + rest
+
+
+def tag_key(enc):
+    """canonical order of SET components (X.690 10.3 / X.680 8.6): class universal < application < context < private, then number"""
+    c, n, _, _ = split_ident(enc)
+    return (c, n)
+
+
+def der(t, v, module_mode='EXPLICIT'):
     k = t['k']
     if k == 'bool':
         return tlv_(0x01, b'\xff' if v else b'\x00')
@@ -43,16 +94,18 @@ def der(t, v):
     if k == 'str':
         return tlv_({'IA5String': 0x16, 'VisibleString': 0x1a, 'UTF8String': 0x0c}[t['kind']], v.encode('utf-8'))
     if k == 'seqof':
-        return tlv_(0x30, b''.join(der(t['elem'], e) for e in v))
+        return tlv_(0x30, b''.join(der(t['elem'], e, module_mode) for e in v))
     if k == 'setof':
-        return tlv_(0x31, b''.join(sorted(der(t['elem'], e) for e in v)))
+        return tlv_(0x31, b''.join(sorted(der(t['elem'], e, module_mode) for e in v)))
     if k == 'seq':
-        return tlv_(0x30, b''.join(der(m['t'], v[m['name']]) for m in t['root'] if m['name'] in v))
+        return tlv_(0x30, b''.join(member_der(m, v[m['name']], module_mode) for m in t['root'] if m['name'] in v))
     if k == 'set':
-        parts = [der(m['t'], v[m['name']]) for m in t['root'] if m['name'] in v]
-        return tlv_(0x31, b''.join(sorted(parts, key=lambda e: e[0] & ~0x20)))
+        parts = [member_der(m, v[m['name']], module_mode) for m in t['root'] if m['name'] in v]
+        return tlv_(0x31, b''.join(sorted(parts, key=tag_key)))
     raise ValueError(k)
 
+
+TAG_NUMBERS = [0, 1, 2, 3, 5, 30, 31, 32, 35, 40, 127, 128, 129, 255, 16383, 16384, 2097151, 2097152]
 
 LEAVES = [
     lambda r: {'k': 'bool'}, lambda r: {'k': 'null'},
@@ -79,13 +132,23 @@ def gen_set_type(rng, depth=0):
                              lambda r: {'k': 'setof', 'elem': gen_set_type(r, depth + 1), 'size': None}]
     rng.shuffle(makers)
     members, tags = [], set()
+    tagged = rng.random() < 0.6         # members carry explicit class/number tags (long-form numbers, all classes, both modes)
     for mk in makers[:rng.randint(2, 6)]:
         mt = mk(rng)
-        tag = der(mt, sample_value(rng, mt))[0] & ~0x20
-        if tag in tags:
-            continue
-        tags.add(tag)
-        members.append({'name': 'f%d' % len(members), 't': mt, 'opt': False, 'default': None})
+        m = {'name': 'f%d' % len(members), 't': mt, 'opt': False, 'default': None}
+        if tagged and rng.random() < 0.8:
+            tg = (rng.choice(['', '', 'APPLICATION', 'PRIVATE']), rng.choice(TAG_NUMBERS))
+            if tg in tags:
+                continue
+            tags.add(tg)
+            m['tag'] = tg + (rng.choice(['', 'IMPLICIT', 'EXPLICIT']),)
+            m['opt'] = rng.random() < 0.3
+        else:
+            tag = der(mt, sample_value(rng, mt))[0] & ~0x20
+            if tag in tags:
+                continue
+            tags.add(tag)
+        members.append(m)
     return {'k': 'set' if x < 0.9 else 'seq', 'root': members, 'ext': None}
 
 
@@ -105,7 +168,7 @@ def sample_value(rng, t):
         return ''.join(rng.choice('abcXYZ 019') for _ in range(rng.choice([0, 1, 3, 130])))
     if k in ('seqof', 'setof'):
         return [sample_value(rng, t['elem']) for _ in range(rng.choice([0, 1, 2, 3, 6]))]
-    return {m['name']: sample_value(rng, m['t']) for m in t['root']}
+    return {m['name']: sample_value(rng, m['t']) for m in t['root'] if not (m['opt'] and rng.random() < 0.4)}
 
 
 def shuffled(rng, t, v):
@@ -118,7 +181,7 @@ def shuffled(rng, t, v):
     if k == 'seqof':
         return [shuffled(rng, t['elem'], e) for e in v]
     if k in ('set', 'seq'):
-        items = [(m['name'], shuffled(rng, m['t'], v[m['name']])) for m in t['root']]
+        items = [(m['name'], shuffled(rng, m['t'], v[m['name']])) for m in t['root'] if m['name'] in v]
         rng.shuffle(items)
         return dict(items)
     return v
@@ -161,13 +224,15 @@ def run(ctx):
     nset = ctx.n(250, 4000)
     for i in range(nset):
         t = gen_set_type(rng)
-        text = module_text([('A', t)], tags='')
+        mode = rng.choice(['', 'EXPLICIT TAGS', 'IMPLICIT TAGS'])
+        text = module_text([('A', t)], tags=mode)
+        module_mode = 'IMPLICIT' if mode.startswith('IMPLICIT') else 'EXPLICIT'
         st, spec = impl.compile_text(text, 'der')
         if st != 'ok':
             ctx.count('setpart.compile.' + st)
             continue
         v = sample_value(rng, t)
-        want = der(t, v)
+        want = der(t, v, module_mode)
         outs = []
         for variant in (v, shuffled(rng, t, v), shuffled(rng, t, v)):
             r = impl.encode(spec, 'A', variant)
@@ -201,6 +266,11 @@ def run(ctx):
     r = impl.encode(spec, 'B', {'a': b'x', 'b': True})
     if not (r[0] == 'ok' and r[1].hex() == '31060101ff040178'):
         ctx.violation('der: SET components are not in ascending tag order', {'module': w, 'type': 'B', 'value': "{'a': b'x', 'b': True}", 'impl': r[1].hex() if r[0] == 'ok' else r[1]})
+    w = 'M DEFINITIONS IMPLICIT TAGS ::= BEGIN A ::= SET { a [APPLICATION 2097152] BOOLEAN, b [APPLICATION 2097151] BOOLEAN, c [40] BOOLEAN, d [35] BOOLEAN } END'
+    st, spec = impl.compile_text(w, 'der')
+    r = impl.encode(spec, 'A', {'a': True, 'b': False, 'c': True, 'd': False})
+    if not (r[0] == 'ok' and r[1].hex() == '31155fffff7f01005f8180800001ff9f2301009f2801ff'):
+        ctx.violation('der: SET components with high tag numbers are not in ascending tag order', {'module': w, 'type': 'A', 'impl': r[1].hex() if r[0] == 'ok' else r[1]})
 
 
 def sorted_members_differs(t, v, got, want):
